@@ -231,6 +231,66 @@ let run_enc_stream c =
     Printf.sprintf "{\"end\":\"ok\",\"frames\":%d,\"frame_match\":%d,\"subs_match\":%d,\"lpc\":%b,\"exhaustive_stereo\":%b%s}"
       !frames !fmatch !smatch lpc_on (o.eo_exhaustive && ch = 2) !first
 
+
+(* raw frame streams of FlacStreamWriter (kind enc_subset): frame k = Enc.enc_frame_bytes of write k,
+   with header codes that never refer to STREAMINFO *)
+let run_enc_subset c =
+  let audio0 = bytes_of_hex (str_field c "bytes") in
+  let cfg = field c "cfg" in
+  let writes = (match field c "frames" with JArr l -> l | _ -> []) in
+  let lpc_on = (field cfg "lpc" <> JNull) in
+  let frames = ref 0 and fmatch = ref 0 and smatch = ref 0 and first = ref "" in
+  let note k what model actual =
+    if !first = "" then first := Printf.sprintf ",\"first_mismatch\":{\"frame\":%d,\"what\":\"%s\",\"model\":\"%s\",\"actual\":\"%s\"}" k what model actual in
+  let rec loop k ws audio =
+    match ws with
+    | [] -> if audio <> [] then note k "bytes-left-after-last-frame" "" (hex_of_bytes (take 64 audio))
+    | w :: rest_ws ->
+      let ch = int_field w "ch" 1 and bps = n_of_int (int_field w "bps" 16) and rate = n_of_int (int_field w "rate" 44100) in
+      let pcm = ints_of (field w "samples") in
+      let chans = List.init ch (fun ci -> List.filteri (fun i _ -> i mod ch = ci) pcm |> List.map z_of_int) in
+      let o = { eo_max_po = n_of_int (int_field cfg "po" 5);
+                eo_mid_side = (field cfg "mid_side" = JBool true);
+                eo_exhaustive = not (field cfg "fast" = JBool true);
+                eo_rice2 = int_of_n bps > 16 } in
+      incr frames;
+      (match struct_frame None audio with
+       | Ok (fa, rest) ->
+         let actual = take (List.length audio - List.length rest) audio in
+         let a = fa.f_hdr.h_assign in
+         let lpcs = List.concat (List.mapi (fun i sf ->
+             match sf.sf_body with
+             | BLpc (order, _, prec, shift, coefs, _) ->
+               let eb = int_of_n (subframe_bps a bps (nat_of_int i)) - int_of_n sf.sf_wasted in
+               [((eb, sem_body fa.f_hdr.h_bs sf.sf_body), (((order, prec), shift), coefs))]
+             | _ -> []) fa.f_subs) in
+         let l = if lpc_on then Some (fun eb ys -> List.assoc_opt (int_of_n eb, ys) lpcs) else None in
+         let model = enc_frame_bytes o l rate bps (n_of_int k) chans in
+         if int_of_n fa.f_hdr.h_rate_code = 0 || int_of_n fa.f_hdr.h_bps_code = 0 then note k "header-refers-to-streaminfo" "" (hex_of_bytes (take 40 actual));
+         if model = Some actual then (incr fmatch; incr smatch)
+         else begin
+           let signals =
+             (match int_of_n a, chans with
+              | 8, [lc; rc] -> [lc; side_of lc rc]
+              | 9, [lc; rc] -> [side_of lc rc; rc]
+              | 10, [lc; rc] -> [mid_of lc rc; side_of lc rc]
+              | _ -> chans) in
+           let ok = ref (List.length signals = List.length fa.f_subs) in
+           if !ok then List.iteri (fun i (xs, sf) ->
+               let b = subframe_bps a bps (nat_of_int i) in
+               if enc_sub o l b xs <> sf then (ok := false; note k (Printf.sprintf "subframe %d" i) "" "")) (List.combine signals fa.f_subs);
+           if !ok then incr smatch;
+           let exh_stereo_lpc = lpc_on && o.eo_exhaustive && ch = 2 in
+           if not (exh_stereo_lpc && !ok) then
+             note k "frame" (match model with Some b -> hex_of_bytes (take 300 b) | None -> "none") (hex_of_bytes (take 300 actual))
+         end;
+         loop (k + 1) rest_ws rest
+       | r -> note k ("actual-frame-unparsable:" ^ res_name r) "" "")
+  in
+  loop 0 writes audio0;
+  Printf.sprintf "{\"end\":\"ok\",\"frames\":%d,\"frame_match\":%d,\"subs_match\":%d,\"lpc\":%b,\"exhaustive_stereo\":false%s}"
+    !frames !fmatch !smatch lpc_on !first
+
 (* ---- generator of valid streams (C03): one output line per generated stream ---- *)
 let run_gen c =
   let open Codec_gen in
@@ -320,6 +380,7 @@ let () =
              | "struct" -> run_struct c
              | "spec_stream" -> run_spec_stream c
              | "enc_stream" -> run_enc_stream c
+             | "enc_subset" -> run_enc_subset c
              | "gen" -> run_gen c
              | k -> Printf.sprintf "{\"end\":\"unknown-kind:%s\"}" k)
           with
